@@ -475,7 +475,7 @@ class JUnitReporter(Reporter):
                 message = u"Undefined Step: %s" % step.name.strip()
                 failure = ElementTree.Element(u"failure")
                 failure.set(u"type", u"undefined")
-                failure.set(u"message", message)
+                failure.set(u"message", _escape_invalid_xml_chars(message))
                 case.append(failure)
 
             # -- ALWAYS ADD TO THE REPORT:
